@@ -341,8 +341,59 @@ impl Gen {
 
     /// op words over {f, b, l}
     pub fn ops(&mut self, maxlen: u64) -> String {
-        let n = 1 + self.rng.below(maxlen);
-        (0..n).map(|_| *self.rng.pick(&['f', 'b', 'l', 'f', 'b'])).collect()
+        self.ops_for(maxlen, maxlen)
+    }
+
+    /// an op sequence over {f = next, b = next_back, l = len} for an iterator of about `size`
+    /// items: a uniformly random mix, or one of the structured shapes that a random mix almost
+    /// never produces — one end drained completely and then the other end probed, an exact
+    /// split of the items between the two ends followed by probes of both, long runs
+    pub fn ops_for(&mut self, maxlen: u64, size: u64) -> String {
+        let probes = |g: &mut Self| -> String {
+            let k = 1 + g.rng.below(4);
+            (0..k).map(|_| *g.rng.pick(&['f', 'b', 'l'])).collect()
+        };
+        match self.rng.below(10) {
+            0..=3 => {
+                let n = 1 + self.rng.below(maxlen);
+                (0..n).map(|_| *self.rng.pick(&['f', 'b', 'l', 'f', 'b'])).collect()
+            }
+            4 => {
+                // drain from the front (exactly, one short, or one over), then probe
+                let n = (size + self.rng.below(3)).saturating_sub(1);
+                self.hit("ops:drain-front");
+                "f".repeat(n as usize) + "l" + &probes(self)
+            }
+            5 => {
+                let n = (size + self.rng.below(3)).saturating_sub(1);
+                self.hit("ops:drain-back");
+                "b".repeat(n as usize) + "l" + &probes(self)
+            }
+            6 | 7 => {
+                // k from one end, the rest from the other (exact split ± 1), then probes
+                let k = self.rng.below(size + 1);
+                let rest = (size - k + self.rng.below(3)).saturating_sub(1);
+                self.hit("ops:split");
+                let (a, b) = if self.rng.chance(1, 2) { ("f", "b") } else { ("b", "f") };
+                a.repeat(k as usize) + &b.repeat(rest as usize) + "l" + &probes(self)
+            }
+            8 => {
+                // alternate strictly, then probes
+                let n = size + 2;
+                self.hit("ops:alternate");
+                let first = self.rng.chance(1, 2);
+                (0..n).map(|i| if (i % 2 == 0) == first { 'f' } else { 'b' }).collect::<String>() + &probes(self)
+            }
+            _ => {
+                // long runs
+                let mut out = String::new();
+                while (out.len() as u64) < maxlen {
+                    let c = *self.rng.pick(&["f", "b", "l"]);
+                    out += &c.repeat(1 + self.rng.below(size.max(1)) as usize);
+                }
+                out
+            }
+        }
     }
 
     fn fmt_year(y: i64) -> String {
@@ -907,18 +958,21 @@ pub fn emit(prop: &str, g: &mut Gen, out: &mut Vec<String>) {
         "C17" => {
             let (ct, oc) = g.cal();
             match g.rng.below(6) {
-                0 => push(out, format!("months_ops {}", g.ops(20))),
+                0 => push(out, format!("months_ops {}", g.ops_for(20, 12))),
                 1 => {
                     // the two months at the ends of the JDN range
                     let (c, y, m) = *g.rng.pick(&[("G", 5874898i64, 6u32), ("G", -5884323, 5), ("J", 5874777, 10), ("J", -5884202, 3),
                         ("G", 5874898, 7), ("G", -5884323, 4)]);
-                    push(out, format!("dates_ops {c} {y} {m} {}", g.ops(40)));
-                    push(out, format!("days_ops {c} {y} {m} {}", g.ops(40)));
+                    let sz = 1 + g.rng.below(31);
+                    push(out, format!("dates_ops {c} {y} {m} {}", g.ops_for(40, sz)));
+                    push(out, format!("days_ops {c} {y} {m} {}", g.ops_for(40, sz)));
                 }
                 _ => {
                     let (y, m, _) = g.ymd(&oc);
                     let k = if g.rng.chance(1, 2) { "days_ops" } else { "dates_ops" };
-                    push(out, format!("{k} {ct} {y} {m} {}", g.ops(40)));
+                    // the month's true length from the oracle, so that exact drains and splits occur
+                    let sz = ((1..=31).filter(|&d| oc.find(y, m, d).is_some()).count() as u64).max(1);
+                    push(out, format!("{k} {ct} {y} {m} {}", g.ops_for(40, sz)));
                 }
             }
         }
